@@ -209,6 +209,18 @@ func newCatalog() *catalog {
 	// X1: an index that lists a layer blob directly next to an image (as build caches do)
 	c.add(&node{Name: "X1", Manifest: true, MT: mtOCIIndex, Kids: []string{"M4", "L3"},
 		Body: mustJSON(idxT{2, mtOCIIndex, []desc{c.dp("M4"), c.d("L3")}})})
+	// U1: an artifact whose layer blob IS the manifest of image M4 (a bundle that packages a manifest):
+	// the same file in blobs/ is a blob of U1 and a manifest of its own
+	c.add(&node{Name: "U1", Manifest: true, MT: mtOCIManifest, Kids: []string{"E1", "M4"},
+		Body: mustJSON(imgT{SchemaVersion: 2, MediaType: mtOCIManifest, ArtifactType: mtSBOM, Config: c.d("E1"),
+			Layers: layers("", "M4")})})
+	// U2: an OCI artifact manifest one of whose blobs IS the index I1
+	c.add(&node{Name: "U2", Manifest: true, MT: mtOCIArtifact, Kids: []string{"I1", "B2"},
+		Body: mustJSON(struct {
+			MediaType    string `json:"mediaType"`
+			ArtifactType string `json:"artifactType"`
+			Blobs        []desc `json:"blobs"`
+		}{mtOCIArtifact, mtSig, []desc{c.d("I1"), c.d("B2")}})})
 	// A1: artifact packaged as an OCI image manifest (artifactType, empty config) with a subject
 	sub := c.d("M1")
 	c.add(&node{Name: "A1", Manifest: true, MT: mtOCIManifest, Kids: []string{"E1", "B1"},
@@ -227,7 +239,11 @@ func newCatalog() *catalog {
 
 // roots are the nodes an ImageCopy may start from; each is tagged at the source with its lower
 // cased name.
-var roots = []string{"M1", "M2", "M3", "M4", "M5", "S1", "I1", "N1", "X1", "A1", "A2"}
+// asBlob are the manifests some other manifest names as a plain blob (U1, U2): the source registry
+// holds them as blobs too
+var asBlob = []string{"M4", "I1"}
+
+var roots = []string{"M1", "M2", "M3", "M4", "M5", "S1", "I1", "N1", "X1", "U1", "U2", "A1", "A2"}
 
 func (c *catalog) fallbackTag() string {
 	return strings.Replace(c.nodes["M1"].Digest, ":", "-", 1)
